@@ -289,7 +289,15 @@ LoadStatus BuildLog::Load(const std::string& path, std::string* err) {
     mtime = strtoll(start, NULL, 10);
     start = end + 1;
 
-    end = static_cast<char*>(memchr(start, kFieldSeparator, line_end - start));
+    // The output path is written as it is and may itself contain the field
+    // separator: the command hash is what follows the last one.
+    end = NULL;
+    for (char* p = line_end; p > start; --p) {
+      if (p[-1] == kFieldSeparator) {
+        end = p - 1;
+        break;
+      }
+    }
     if (!end)
       continue;
     std::string output(start, end - start);
